@@ -4,7 +4,11 @@
 //! (b) self-referential gradual calculators: lifetime histories (move into `Box`/`Vec`/thread,
 //!     drop mid-iteration, interleaved instances) must produce exactly the values of plain
 //!     iteration — a smoke oracle; memory errors proper are looked for by the Miri run of
-//!     `src/bin/miri_hist.rs` (thorough tier).
+//!     `src/bin/miri_hist.rs` (thorough tier).  Correspondence (`LIFE` lines): random histories
+//!     over up to four interleaved calculators (construct / move / next / nth / len / drop) are run
+//!     on the real types and, in lockstep, by the value model `Model/Gradual.lean` and the
+//!     pointer-discipline model `Model/Lifetime.lean` (`Model/LifeWire.lean`); per-operation
+//!     observations and the set of live instances are diffed.
 //! (c) decoder scratch buffer: slider-heavy inputs decode identically when decoded repeatedly and
 //!     interleaved with malformed lines.
 
@@ -459,8 +463,10 @@ fn life_lines(run: &mut Run, id: &str, text: &str, mode: u8, settings: &Settings
                 run.count_n("life:moves", hist[..done].iter().filter(|o| matches!(o, H::Move(_))).count() as u64);
                 run.count_n("life:drops", hist[..done].iter().filter(|o| matches!(o, H::Drop(_))).count() as u64);
                 run.count_n("life:constructs", hist[..done].iter().filter(|o| matches!(o, H::Construct)).count() as u64);
-                if run.samples.len() < 6 && done > 6 {
-                    run.sample(format!("{line} => {}", toks.join(" ")));
+                if toks.iter().filter(|t| t.starts_with("S:")).count() >= 4 && line.len() < 400 && run.samples.iter().filter(|x| x.starts_with("LIFE ")).count() < 2 {
+                    // the StrainsVec part fills the sample list first: keep two histories in front
+                    run.samples.insert(0, format!("{line} => {}", toks.join(" ")));
+                    run.samples.truncate(6);
                 }
                 run.line(id, line, toks.join(" "));
             }
